@@ -6,7 +6,7 @@ from vf.core import Part, Violation, call
 from vf.props import common
 
 PROPERTY = "C17"
-RULE = ("Part 'propositions': Hypothesis generates validated models (all connectives, integer leaves, pre-fixed nodes) and "
+RULE = ("Part 'lookalike_ids': ENUMERATED configurators whose leaf / group ids differ only in blanks, case, tab or unicode composition, with requests that name them. Part 'propositions': Hypothesis generates validated models (all connectives, integer leaves, pre-fixed nodes) and "
         "StingyConfigurator specs; from_b64(to_b64(x)) must have the same deep snapshot (generic walk over every instance "
         "attribute: class, id, bounds, sign, value, generated-id flag, prio, default, children...), the same to_text(), and "
         "must answer evaluate (on drawn/enumerated assignments), to_json and to_ge_polyhedron identically. Part 'configs': "
